@@ -412,14 +412,29 @@ func RCountDec(c *core.Ctx) {
 					}
 					// normalising the caller's sentinel (`if count < 0 { count = MaxInt }`) is a test of the counter itself
 					own := false
+					mentions := func(e ast.Node) {
+						if e == nil {
+							return
+						}
+						ast.Inspect(e, func(y ast.Node) bool {
+							if cid, ok := y.(*ast.Ident); ok && info.ObjectOf(cid) == info.ObjectOf(id) {
+								own = true
+							}
+							return true
+						})
+					}
 					for i := len(stack) - 2; i >= 0; i-- {
-						if ifs, ok := stack[i].(*ast.IfStmt); ok {
-							ast.Inspect(ifs.Cond, func(y ast.Node) bool {
-								if cid, ok := y.(*ast.Ident); ok && info.ObjectOf(cid) == info.ObjectOf(id) {
-									own = true
-								}
-								return true
-							})
+						switch g := stack[i].(type) {
+						case *ast.IfStmt:
+							mentions(g.Cond)
+						case *ast.CaseClause:
+							for _, e := range g.List {
+								mentions(e)
+							}
+						case *ast.SwitchStmt:
+							if g.Tag != nil {
+								mentions(g.Tag)
+							}
 						}
 					}
 					if !own {
